@@ -10,7 +10,7 @@ package ledger
 // opens the ledger files of the chain with OpenLedger, continues adding the reference blocks
 // after Latest(), and reports its progress on a pipe (fd 3), one line per event:
 //
-//   O latest dbRound   OpenLedger returned          A r   Ledger.AddBlock(r) returned
+//   O latest dbRound   OpenLedger returned          B r / A r   Ledger.AddBlock(r) is about to be called / returned
 //   W r                <-Ledger.Wait(r) fired       F     all blocks added, flushed and committed
 //   T0/T1 nb           first / last tracker callback INSIDE the tracker-DB transaction of
 //                      trackerRegistry.commitRound (T1: every tracker has written, the
@@ -394,19 +394,29 @@ func vc9ReadBlocks(path string) ([]bookkeeping.Block, error) {
 // child process
 
 type vc9Progress struct {
-	mu    sync.Mutex
-	f     *os.File
-	n     int
-	pause int // line index after which the printing goroutine sleeps (probe lines only)
+	mu        sync.Mutex
+	f         *os.File
+	n         int
+	pause     int    // line index after which the printing goroutine sleeps (probe lines only)
+	pauseKind string // or: the pauseN-th line of this kind
+	pauseN    int
+	byKind    map[string]int
 }
 
 func (p *vc9Progress) line(probe bool, format string, args ...interface{}) {
 	p.mu.Lock()
 	p.n++
 	n := p.n
-	fmt.Fprintf(p.f, format+"\n", args...)
+	ln := fmt.Sprintf(format, args...)
+	kind := strings.Fields(ln)[0]
+	if p.byKind == nil {
+		p.byKind = map[string]int{}
+	}
+	p.byKind[kind]++
+	k := p.byKind[kind]
+	fmt.Fprintln(p.f, ln)
 	p.mu.Unlock()
-	if probe && n == p.pause {
+	if probe && (n == p.pause || (kind == p.pauseKind && k == p.pauseN)) {
 		time.Sleep(40 * time.Millisecond)
 	}
 }
@@ -449,7 +459,8 @@ func TestVerifC09Child(t *testing.T) {
 		t.Skip("child entry point of TestVerifC09")
 	}
 	cfg := vc9ParseCfg(os.Getenv("VERIF_C09_CFG"))
-	out := &vc9Progress{f: os.NewFile(3, "progress"), pause: vEnvInt("VERIF_C09_PAUSE", 0)}
+	out := &vc9Progress{f: os.NewFile(3, "progress"), pause: vEnvInt("VERIF_C09_PAUSE", 0),
+		pauseKind: os.Getenv("VERIF_C09_PAUSE_KIND"), pauseN: vEnvInt("VERIF_C09_PAUSE_N", 0)}
 	blocks, err := vc9ReadBlocks(filepath.Join(dir, "blocks.bin"))
 	if err != nil {
 		t.Fatal(err)
@@ -475,6 +486,7 @@ func TestVerifC09Child(t *testing.T) {
 		l.trackers.mu.Lock()
 		l.trackers.lastFlushTime = time.Time{}
 		l.trackers.mu.Unlock()
+		out.line(false, "B %d", r) // about to add r: from here on block r may reach the queue and the disk
 		if err := l.AddBlock(blocks[r-1], agreement.Certificate{}); err != nil {
 			out.line(false, "E addblock %d %v", r, err)
 			t.Fatal(err)
@@ -498,8 +510,9 @@ func TestVerifC09Child(t *testing.T) {
 // parent: one incarnation
 
 type vc9Kill struct {
-	kind  string        // "line" | "time" | "none"
-	line  int           // kill after this many progress lines
+	kind  string        // "line" | "kline" | "time" | "none"
+	line  int           // kill after this many progress lines (kline: lines of kind lk)
+	lk    string        // kline: the kind of line counted
 	delay time.Duration // extra delay after the line / absolute time after start
 }
 
@@ -508,6 +521,7 @@ type vc9Run struct {
 	killed    bool
 	killAfter string // kind of the last line seen before the kill ("" = none yet)
 	maxA      int
+	maxB      int
 	maxW      int
 	openLat   int
 	done      bool // "C" seen: closed cleanly
@@ -524,6 +538,10 @@ func vc9RunChild(t *testing.T, dir string, cfg vc9Cfg, k vc9Kill, wseed int, upT
 	if k.kind == "line" {
 		cmd.Env = append(cmd.Env, fmt.Sprintf("VERIF_C09_PAUSE=%d", k.line))
 	}
+	if k.kind == "kline" {
+		cmd.Env = append(cmd.Env, "VERIF_C09_PAUSE_KIND="+k.lk, fmt.Sprintf("VERIF_C09_PAUSE_N=%d", k.line))
+	}
+	byKind := map[string]int{}
 	cmd.ExtraFiles = []*os.File{pw}
 	cmd.Stdout, cmd.Stderr = nil, nil
 	start := time.Now()
@@ -560,6 +578,8 @@ func vc9RunChild(t *testing.T, dir string, cfg vc9Cfg, k vc9Kill, wseed int, upT
 		switch f[0] {
 		case "A":
 			res.maxA, _ = strconv.Atoi(f[1])
+		case "B":
+			res.maxB, _ = strconv.Atoi(f[1])
 		case "W":
 			res.maxW, _ = strconv.Atoi(f[1])
 		case "O":
@@ -570,7 +590,9 @@ func vc9RunChild(t *testing.T, dir string, cfg vc9Cfg, k vc9Kill, wseed int, upT
 			res.done = true
 			mu.Unlock()
 		}
-		if k.kind == "line" && len(res.lines) == k.line {
+		byKind[f[0]]++
+		if (k.kind == "line" && len(res.lines) == k.line) || (k.kind == "kline" && f[0] == k.lk && byKind[f[0]] == k.line) ||
+			(k.kind == "kline" && len(res.lines) == 26) { // the awaited event did not come: kill anyway
 			res.killAfter = f[0]
 			if k.delay > 0 {
 				time.Sleep(k.delay)
@@ -900,14 +922,18 @@ func vc9Chain(t *testing.T, outDir string, h *vc9Hist, chain int, start time.Tim
 			return
 		}
 		var k vc9Kill
-		switch c := rnd.Intn(10); {
-		case c < 6:
-			k = vc9Kill{kind: "line", line: 1 + rnd.Intn(14)}
-			if rnd.Intn(3) == 0 {
+		kinds := []string{"B", "A", "W", "W", "T0", "T1", "PC0", "PC1", "PU1"}
+		switch c := rnd.Intn(20); {
+		case c < 10:
+			// right after the n-th event of a chosen kind (probe kinds: the child pauses there)
+			k = vc9Kill{kind: "kline", lk: kinds[rnd.Intn(len(kinds))], line: 1 + rnd.Intn(3)}
+		case c < 15:
+			k = vc9Kill{kind: "line", line: 1 + rnd.Intn(16)}
+			if rnd.Intn(2) == 0 {
 				k.delay = time.Duration(rnd.Intn(3000)) * time.Microsecond
 			}
-		case c < 7:
-			k = vc9Kill{kind: "line", line: 1 + rnd.Intn(40)}
+		case c < 16:
+			k = vc9Kill{kind: "line", line: 1 + rnd.Intn(50)}
 		default:
 			// inside process start / OpenLedger / shortly after
 			// (the first 40% of that time is process start-up: nothing has touched the files yet)
@@ -931,8 +957,8 @@ func vc9Chain(t *testing.T, outDir string, h *vc9Hist, chain int, start time.Tim
 			confirmed = run.maxW
 		}
 		added := prevBlocks
-		if run.maxA > added {
-			added = run.maxA
+		if run.maxB > added {
+			added = run.maxB
 		}
 		if run.openLat > added {
 			added = run.openLat
@@ -957,6 +983,9 @@ func vc9Chain(t *testing.T, outDir string, h *vc9Hist, chain int, start time.Tim
 		stat(kind, bs, extra)
 		// state for the next incarnation: the parent's own reopen closed cleanly
 		prevBlocks = disk.nblocks
+		if ok, _ := obs[0].(int); ok == 0 {
+			return // OpenLedger failed: the case is emitted, the chain cannot continue
+		}
 		if !run.killed && run.done {
 			return
 		}
@@ -986,7 +1015,7 @@ func vc9Boundaries(cfg vc9Cfg, run vc9Run, d vc9Disk, added int) (bs []string) {
 	if d.nblocks > d.dbRound+int(cfg.L) {
 		bs = append(bs, "blocks_durable_tracker_behind")
 	}
-	if d.nblocks < added {
+	if d.nblocks < run.maxA {
 		bs = append(bs, "queued_blocks_lost")
 	}
 	if last == "T0" || last == "T1" {
